@@ -4,6 +4,7 @@ import (
 	"fmt"
 	"math/rand"
 	"strconv"
+	"strings"
 	"time"
 )
 
@@ -88,7 +89,155 @@ func genRng(r *rand.Rand) []int {
 	}
 }
 
+// eqvPool: resource-level equivalences (consulted by Pull only): never / always equivalent, proto.Equal
+// (as a comparer and as WithNoDuplicates), and one coarser than equality (same default_int32)
+var eqvPool = []string{"never", "equal", "sameA", "always", "nodup"}
+
+// genCfg draws a configuration; one in four is then re-written as an ORDERED resource option list with
+// repeats, of which the drawn configuration is what the list resolves to.
 func genCfg(r *rand.Rand) Cfg {
+	c := genCfgRecord(r)
+	if r.Intn(5) == 0 {
+		c.Eqv = pick(r, eqvPool)
+	}
+	if r.Intn(4) == 0 {
+		c = asOptionList(r, c)
+	}
+	return c
+}
+
+// validPaths: every letter names a field of the message type (the With…Paths constructors that take a
+// message panic otherwise, before any call is made)
+func validPaths(mask string) bool {
+	for _, l := range maskLetters(mask) {
+		if l == "x" || l == "fx" {
+			return false
+		}
+	}
+	return true
+}
+
+// asOptionList: the options that produce c, in a random order, each possibly preceded by options of the
+// same kind that a later one overrides (another mask, nil, another interceptor, ...), with EmptyOption and
+// the clock / rng options at random places. Initial records keep distinct ids (the exhaustive
+// resource-options tie covers the panic).
+func asOptionList(r *rand.Rand, c Cfg) Cfg {
+	var kinds [][]string
+	wTok := func(m string) string {
+		if validPaths(m) && r.Intn(2) == 0 {
+			return "Wp:" + m
+		}
+		return "W:" + m
+	}
+	{
+		var k []string
+		for n := r.Intn(3); n > 0; n-- {
+			k = append(k, pick(r, []string{"W:nil", wTok(pick(r, wMasks()))}))
+		}
+		if c.W != nil {
+			k = append(k, wTok(*c.W))
+		} else if len(k) > 0 {
+			k = append(k, "W:nil")
+		}
+		kinds = append(kinds, k)
+	}
+	{
+		var k []string
+		for n := r.Intn(3); n > 0; n-- {
+			k = append(k, pick(r, []string{"icpt:nil", "icpt:lower", "icpt:dash", "icpt:first"}))
+		}
+		if c.Kind == "val" {
+			// a Value ignores the interceptor, whatever it is
+		} else if c.Icpt != "" {
+			k = append(k, "icpt:"+c.Icpt)
+		} else if len(k) > 0 {
+			k = append(k, "icpt:nil")
+		}
+		kinds = append(kinds, k)
+	}
+	{
+		var k []string
+		if c.Kind == "val" {
+			for n := r.Intn(3); n > 0; n-- {
+				k = append(k, pick(r, []string{"init:nil", "init:" + genMsg(r)}))
+			}
+			if len(c.Init) > 0 {
+				k = append(k, "init:"+c.Init[0])
+			} else if len(k) > 0 {
+				k = append(k, "init:nil")
+			}
+			if r.Intn(4) == 0 {
+				k = append(k, "rec:a~"+genMsg(r)) // ignored by a Value
+			}
+		} else {
+			for _, rec := range c.Init {
+				k = append(k, "rec:"+rec)
+			}
+			if r.Intn(4) == 0 {
+				k = append(k, "init:"+genMsg(r)) // ignored by a Collection
+			}
+		}
+		kinds = append(kinds, k)
+	}
+	{
+		var k []string
+		for n := r.Intn(2); n > 0; n-- {
+			k = append(k, "eqv:"+pick(r, eqvPool))
+		}
+		if c.Eqv != "" {
+			k = append(k, "eqv:"+c.Eqv)
+		} else {
+			k = nil // an equivalence cannot be taken away again by a nil one without losing "no equivalence"
+		}
+		kinds = append(kinds, k)
+	}
+	kinds = append(kinds, []string{"clk"}, []string{"rng"})
+	for n := r.Intn(3); n > 0; n-- {
+		kinds = append(kinds, []string{"nop"})
+	}
+	// interleave the kinds, keeping the order within each kind
+	var res []string
+	for {
+		var live []int
+		for i, k := range kinds {
+			if len(k) > 0 {
+				live = append(live, i)
+			}
+		}
+		if len(live) == 0 {
+			break
+		}
+		i := pick(r, live)
+		res = append(res, kinds[i][0])
+		kinds[i] = kinds[i][1:]
+	}
+	out := resolveRes(Cfg{Kind: c.Kind, Tick: c.Tick, Rng: c.Rng, Res: res})
+	return out
+}
+
+// respell re-writes some options in their other spelling (WithUpdatePaths for WithUpdateMask, ...) and
+// drops an EmptyWriteOption / EmptyReadOption in now and then.
+func respell(r *rand.Rand, opts []string) []string {
+	if r.Intn(3) > 0 {
+		return opts
+	}
+	spell := map[string]string{"um": "ump", "mum": "mump", "rs": "rsp", "mw": "mwp", "rm": "rmp"}
+	var out []string
+	for _, t := range opts {
+		if i := strings.IndexByte(t, '='); i >= 0 && r.Intn(2) == 0 {
+			if k, ok := spell[t[:i]]; ok && t[i+1:] != "nil" && (k != "rmp" || validPaths(t[i+1:])) {
+				t = k + t[i:]
+			}
+		}
+		if r.Intn(8) == 0 {
+			out = append(out, "nop")
+		}
+		out = append(out, t)
+	}
+	return out
+}
+
+func genCfgRecord(r *rand.Rand) Cfg {
 	c := Cfg{Kind: "coll", Tick: pick(r, tickPool)}
 	if r.Intn(4) == 0 {
 		c.Kind = "val"
